@@ -25,29 +25,29 @@ import (
 // simNode: one beacon node. It keeps its OWN post-states (never the builder's), reached
 // along its own path: slot-by-slot ticks, multi-slot jumps, or a restart from bytes.
 type simNode struct {
-	id      int
-	states  map[common.Root]*stateBox
-	ticked  *stateBox // head state advanced tick by tick (ticker nodes)
+	id       int
+	states   map[common.Root]*stateBox
+	ticked   *stateBox // head state advanced tick by tick (ticker nodes)
 	tickedOn common.Root
-	ticker  bool
+	ticker   bool
 	restarts bool
-	pending []*blockRec // delivered late (partition)
+	pending  []*blockRec // delivered late (partition)
 }
 
 type sim struct {
-	w     *World
-	cfg   *Config
-	opt   core.Options
-	res   *core.Result
-	nodes []*simNode
-	log   core.LogHasher
-	frng  *core.Rng // fault stream
-	model bool      // refinement against refspec armed
-	steps bool      // ... including the step-wise transition checks (C01/C02)
-	gnode *gossipNode
+	w       *World
+	cfg     *Config
+	opt     core.Options
+	res     *core.Result
+	nodes   []*simNode
+	log     core.LogHasher
+	frng    *core.Rng // fault stream
+	model   bool      // refinement against refspec armed
+	steps   bool      // ... including the step-wise transition checks (C01/C02)
+	gnode   *gossipNode
 	curSlot uint64
-	step  int
-	stop  bool
+	step    int
+	stop    bool
 }
 
 func (s *sim) viol(prop, sig, detail string) {
@@ -569,7 +569,9 @@ func (s *sim) tick(n *simNode, slot uint64) {
 	if s.steps {
 		preTick, _ = n.ticked.copy()
 	}
-	if p := guard(func() { err = common.ProcessSlots(context.Background(), s.w.spec, n.ticked.epc, n.ticked.st, common.Slot(slot)) }); p != nil {
+	if p := guard(func() {
+		err = common.ProcessSlots(context.Background(), s.w.spec, n.ticked.epc, n.ticked.st, common.Slot(slot))
+	}); p != nil {
 		s.viol("C02", "panic/ProcessSlots/"+p.frame, p.val)
 		return
 	}
@@ -647,6 +649,10 @@ func run(cfg *Config, opt core.Options, res *core.Result) *sim {
 		res.SimTimeMs += int64(w.spec.SECONDS_PER_SLOT) * 1000
 		if cfg.has("deposits") && w.rng.Chance(1, 4) {
 			w.newDeposit()
+			if cfg.Knobs["EXIT_RATE"] > 1 { // churn director: deposit flood
+				w.newDeposit()
+				w.newDeposit()
+			}
 		}
 		// proposal
 		parent := w.head
@@ -665,6 +671,11 @@ func run(cfg *Config, opt core.Options, res *core.Result) *sim {
 				res.Stat("slots_skipped_slashed_proposer", 1)
 				blk = nil
 				err = nil
+			}
+			if err != nil && strings.Contains(err.Error(), "no active validators") {
+				// every validator exited or was ejected: the chain (of the specification as well) ends here
+				res.Stat("runs_ended_without_active_validators", 1)
+				break
 			}
 			if err != nil {
 				s.viol("C01", "honest-block-refused", err.Error())
@@ -735,6 +746,10 @@ func run(cfg *Config, opt core.Options, res *core.Result) *sim {
 		}
 		// attestations for this slot on the head
 		hb, err := w.advance(w.head, slot)
+		if err != nil && strings.Contains(err.Error(), "no active validators") {
+			res.Stat("runs_ended_without_active_validators", 1)
+			break
+		}
 		if err != nil {
 			s.viol("C02", "process-slots-error", fmt.Sprintf("advancing the head to slot %d: %v", slot, err))
 			break
@@ -752,10 +767,7 @@ func run(cfg *Config, opt core.Options, res *core.Result) *sim {
 			}
 		}
 		if slot%cfg.SPE == 0 {
-			fin, _ := hb.st.FinalizedCheckpoint()
-			if fin.Epoch > 0 {
-				res.Stat("probe_finalized_epochs_seen", 1)
-			}
+			s.probes(hb, slot)
 		}
 		s.checkImmutability()
 	}
@@ -763,6 +775,75 @@ func run(cfg *Config, opt core.Options, res *core.Result) *sim {
 		res.Nontrivial = true
 	}
 	return s
+}
+
+// probes: "this rare condition was reached" counters, taken on the head state at epoch starts
+// (reach measurement only; a probe stuck at zero is a coverage warning, never a violation)
+func (s *sim) probes(hb *stateBox, slot uint64) {
+	w := s.w
+	res := s.res
+	st := hb.st
+	epoch := w.epochOf(slot)
+	fin, _ := st.FinalizedCheckpoint()
+	if fin.Epoch > 0 {
+		res.Stat("probe_finalized_epochs_seen", 1)
+	}
+	if epoch > 1 && epoch-1-uint64(fin.Epoch) > uint64(w.spec.MIN_EPOCHS_TO_INACTIVITY_PENALTY) {
+		res.Stat("probe_epochs_in_inactivity_leak", 1)
+	}
+	vals, _ := st.Validators()
+	n, _ := vals.ValidatorCount()
+	if int(n) > s.cfg.Validators {
+		res.Stat("probe_epochs_with_deposited_validators", 1)
+	}
+	ejected, activated, slashed, withdrawable := 0, 0, 0, 0
+	for i := uint64(0); i < n; i++ {
+		v, _ := vals.Validator(common.ValidatorIndex(i))
+		ex, _ := v.ExitEpoch()
+		sl, _ := v.Slashed()
+		ac, _ := v.ActivationEpoch()
+		wd, _ := v.WithdrawableEpoch()
+		if sl {
+			slashed++
+		}
+		if uint64(ex) != farFuture && !sl && !w.exited[int(i)] {
+			ejected++
+		}
+		if ac != 0 && uint64(ac) != farFuture {
+			activated++
+		}
+		if uint64(wd) <= epoch {
+			withdrawable++
+		}
+	}
+	if ejected > 0 {
+		res.Stat("probe_epochs_with_ejected_validators", 1)
+	}
+	if activated > 0 {
+		res.Stat("probe_epochs_with_validators_activated_after_genesis", 1)
+	}
+	if slashed >= 3 {
+		res.Stat("probe_epochs_with_3_or_more_slashed", 1)
+	}
+	if withdrawable > 0 {
+		res.Stat("probe_epochs_with_withdrawable_validators", 1)
+	}
+	e1, _ := st.Eth1Data()
+	if int(e1.DepositCount) > s.cfg.Validators {
+		res.Stat("probe_epochs_after_eth1_data_adopted", 1)
+	}
+	if epoch*s.cfg.SPE >= uint64(w.spec.SLOTS_PER_HISTORICAL_ROOT) {
+		res.Stat("probe_epochs_after_historical_wraparound", 1)
+	}
+	if epoch >= uint64(w.spec.EPOCHS_PER_SLASHINGS_VECTOR) {
+		res.Stat("probe_epochs_after_slashings_vector_wraparound", 1)
+	}
+	if fi := w.forkIndexAt(epoch); fi >= 1 {
+		first := w.cfg.ForkEpochs[0]
+		if (epoch-first)/uint64(w.spec.EPOCHS_PER_SYNC_COMMITTEE_PERIOD) >= 2 || epoch/uint64(w.spec.EPOCHS_PER_SYNC_COMMITTEE_PERIOD) > first/uint64(w.spec.EPOCHS_PER_SYNC_COMMITTEE_PERIOD)+1 {
+			res.Stat("probe_epochs_after_second_sync_period_boundary", 1)
+		}
+	}
 }
 
 // ---------- engine glue ----------
@@ -858,8 +939,8 @@ func (Engine) CrashViolation(stderr string, opt core.Options) (core.Violation, b
 
 func (Engine) Describe() core.EngineInfo {
 	return core.EngineInfo{
-		Real: []string{"common.StateTransition / ProcessSlots / PostSlotTransition and every per-fork epoch and block processing function (phase0..deneb)", "StandardUpgradeableBeaconState.UpgradeMaybe", "EpochsContext (incremental and from scratch)", "PubkeyCache", "tree-view and struct-form SSZ of states and blocks, ForkDecoder", "genesis (KickStartStateWithSignatures/GenesisFromEth1)", "BLS (kilic via bls12-381-util)"},
+		Real:  []string{"common.StateTransition / ProcessSlots / PostSlotTransition and every per-fork epoch and block processing function (phase0..deneb)", "StandardUpgradeableBeaconState.UpgradeMaybe", "EpochsContext (incremental and from scratch)", "PubkeyCache", "tree-view and struct-form SSZ of states and blocks, ForkDecoder", "genesis (KickStartStateWithSignatures/GenesisFromEth1)", "BLS (kilic via bls12-381-util)"},
 		Stubs: []string{"validators (honest-validator duties; PRNG participation)", "block builder", "eth1 deposit contract (own Merkle tree)", "depositors", "execution engine (scripted)", "node store / delivery / partitions / restarts", "clock (slots)"},
-		Rule: "distinct = (post-state root prefix, slot) of every state checked; non-trivial run = more than 4 blocks produced",
+		Rule:  "distinct = (post-state root prefix, slot) of every state checked; non-trivial run = more than 4 blocks produced",
 	}
 }
